@@ -158,6 +158,10 @@ func (vc *FuncVC) execBuiltin(st *State, reach Term, ins *ssa.Call, b *ssa.Built
 	case "len", "cap":
 		v := vc.val(args[0])
 		if v.Kind == vSlice {
+			if b.Name() == "cap" {
+				vc.vals[ins] = &Val{T: vc.capOf(v), GoType: ins.Type()}
+				return
+			}
 			vc.vals[ins] = &Val{T: v.Elems[1].T, GoType: ins.Type()}
 			return
 		}
@@ -193,7 +197,7 @@ func (vc *FuncVC) execBuiltin(st *State, reach Term, ins *ssa.Call, b *ssa.Built
 						v := Ite(Lt(kk, ls), vc.load(old, key, Add(ps, kk), es), vc.load(old, key, Add(pt, Sub(kk, ls)), es))
 						vc.storeLeaf(st, key, Add(p, kk), v)
 					}
-					vc.vals[ins] = &Val{Kind: vSlice, Elems: []*Val{{T: p}, {T: n}}, GoType: ins.Type()}
+					vc.vals[ins] = &Val{Kind: vSlice, Elems: []*Val{{T: p}, {T: n}, vc.freshCap(n)}, GoType: ins.Type()}
 					return
 				}
 			}
